@@ -14,6 +14,7 @@ from ..run import Outcome
 
 ID = "C02"
 BUDGET = {"quick": 24000, "thorough": 300000}
+FUZZ = {"thorough": 4000}  # coverage-guided stage: libFuzzer runs per worker (x16), see vk/fuzz.py
 RULE = (
     "Hypothesis: profile of 1-8 untied ballots over 1-6 declared candidates (partial ballots, "
     "int or p/q weights, zero-vote candidates, duplicated / mirrored / rotated rankings) x rule in "
